@@ -27,6 +27,11 @@ Case kinds
   fresh-ds    get_dataset_instance(name) -> scribble over the returned object -> get_dataset_instance(name) again /
               ProblemFromDataset / NaiveElimination(dataset_name=name): the later instance must be the pristine
               scaled data (caches of the code under test are cleared in a finally block)
+  flag-hist   ONE problem object (ProblemFromDataset / ContinuousProblem / BraninCurrin, bare or wrapped in
+              DecoupledEvaluationProblem) called repeatedly with noisy=False, noisy=True and the DEFAULT (argument
+              omitted), positional and keyword, every evaluation_index form; each call is checked against ITS OWN
+              contract (False -> exactly the noiseless value and no draw; True/default -> f + z·M for the recorded
+              draw, residual != 0) and the object's configuration must stay bit-identical
   moments     (thorough) sample mean / covariance of repeated noisy evaluations inside a 6-sigma band
               fixed by the seed — a statistical TEST, not a proof
 
@@ -50,7 +55,8 @@ RULE = ("cases: lookup (dyadic designs X, values Y, query batch or single 1-D po
         "continuous (BraninCurrin incl. zero coordinates, linear synthetic), bundled (4 datasets x scaling / lookup), "
         "synth-ds, roundtrip (dyadic exact / random floats), history (one reused query buffer overwritten in place, 2-5 "
         "steps, returned arrays scribbled), fresh-ds (dataset instance scribbled, then requested again by name / by "
-        "an algorithm constructor), moments (thorough; statistical test). non-trivial = lookup "
+        "an algorithm constructor), flag-hist (3-7 calls on one object mixing noisy=False / True / default), moments "
+        "(thorough; statistical test). non-trivial = lookup "
         "with >= 2 designs and (a tie or an off-grid point or a decoupled index); noise with a non-scalar factor or a "
         "dyadic draw; every other kind counts when its comparison was actually made; distinct by the case data")
 ASSUMPTIONS = [
@@ -489,6 +495,67 @@ def _gen_history(rng):
 SCRIBBLES = ["units", "flip", "const", "rebind"]
 CONSUMERS = ["get", "problem", "naive"]
 
+
+FLAG_VIAS = ["dataset", "linear", "branin", "dec-dataset", "dec-linear", "dec-branin"]
+FLAG_MODES = ["false_kw", "true_kw", "default", "false_pos", "true_pos"]
+
+
+def _flag_history_case(rng, via, modes, single=None, noise_var=None, bundled=None):
+    dec = via.startswith("dec-")
+    base = via[4:] if dec else via
+    single = (rng.random() < 0.3) if single is None else single
+    k = 1 if single else rng.choice([1, 2, 3])
+    nv = noise_var if noise_var is not None else rng.choice([0.25, 1.0, 4.0, 0.0625, 0.1, 0.04])
+    case = {"kind": "flag-hist", "via": via, "single": single, "noise_var": nv}
+    if base == "branin":
+        d, m = 2, 2
+        pt = lambda: [rng.randint(0, 32) / 32.0, rng.randint(1, 32) / 32.0]
+    elif bundled:
+        card, d, m = DECLARED[bundled]
+        case["bundled"] = bundled
+        pt = lambda: [rng.randint(0, 16) / 16.0 for _ in range(d)]
+    else:
+        d, m = rng.choice([1, 2, 3]), rng.choice([1, 2, 3])
+        n = rng.choice([2, 3, 5])
+        X = []
+        while len(X) < n:
+            r = [core.dyadic(rng, -8, 8, 1) for _ in range(d)]
+            if r not in X:
+                X.append(r)
+        case["X"] = X
+        case["Y"] = [[core.dyadic(rng, -16, 16, 2) for _ in range(m)] for _ in range(n)]
+        if base == "linear":
+            case["A"] = [[core.dyadic(rng, -4, 4, 1) for _ in range(m)] for _ in range(d)]
+            case["b"] = [core.dyadic(rng, -4, 4, 1) for _ in range(m)]
+        pt = lambda: (list(X[rng.randrange(n)]) if rng.random() < 0.5 else
+                      [core.dyadic(rng, -20, 20, 2) for _ in range(d)])
+    calls = []
+    for mode in modes:
+        if dec and mode.endswith("_pos"):
+            mode = mode[:-4] + "_kw"          # the wrapper takes `noisy` by keyword only
+        q = rng.random()
+        if not dec or q < 0.3:
+            ix = None
+        elif q < 0.6 or single:
+            ix = rng.randrange(m)
+        else:
+            ix = [rng.randrange(m) for _ in range(k)]
+        Z = [[rng.choice([-1, 1]) * rng.randint(1, 8) / 4.0 for _ in range(m)] for _ in range(k)]  # no zero entry
+        calls.append({"mode": mode, "xs": [pt() for _ in range(k)], "ix": ix, "ix_pos": rng.random() < 0.5,
+                      "Z": Z, "real_rng": rng.random() < 0.15, "seed": rng.randrange(2 ** 31)})
+    case.update({"calls": calls, "m": m, "d": d})
+    return case
+
+
+def _gen_flag_history(rng):
+    via = rng.choice(FLAG_VIAS)
+    T = rng.choice([3, 4, 5, 6, 7])
+    modes = [rng.choice(FLAG_MODES) for _ in range(T)]
+    if rng.random() < 0.6:                       # make sure the False -> default pattern occurs often
+        i = rng.randrange(T - 1)
+        modes[i], modes[i + 1] = rng.choice(["false_kw", "false_pos"]), "default"
+    return _flag_history_case(rng, via, modes)
+
 def _gen_moments(rng):
     which = rng.choice(["dataset", "linear", "branin", "util-diag", "util-lower"])
     m = 2 if which == "branin" else rng.choice([1, 2, 3])
@@ -521,9 +588,17 @@ def gen(ctx):
     for i, (nm, sc, co) in enumerate(combos):
         if i % ctx.nworkers == ctx.worker:
             yield {"kind": "fresh-ds", "name": nm, "scribble": sc, "consumer": co}
+    # noisy-flag histories: one fixed pattern per problem class in EVERY run (worker-sharded)
+    fixed = random.Random(f"c20-flag:{ctx.seed}")
+    for i, via in enumerate(FLAG_VIAS):
+        for j, modes in enumerate([["false_kw", "default", "true_kw", "default", "false_kw"],
+                                   ["default", "false_pos", "default", "default"]]):
+            c = _flag_history_case(fixed, via, modes, single=(j == 1 and i % 2 == 0))
+            if (2 * i + j) % ctx.nworkers == ctx.worker:
+                yield c
     # (hand-picked regression cases live in corpus/C20/ and run first)
     kinds = [("lookup", 45), ("noise-util", 12), ("noise-prob", 12), ("continuous", 9), ("synth-ds", 9),
-             ("roundtrip", 13), ("history", 14), ("neardup", 14)]
+             ("roundtrip", 13), ("history", 14), ("neardup", 14), ("flag-hist", 12)]
     if ctx.tier == "thorough":
         for _ in range(ctx.n(0, 140)):
             yield _gen_moments(rng)
@@ -545,6 +620,8 @@ def gen(ctx):
             yield _gen_history(rng)
         elif kind == "neardup":
             yield _gen_neardup(rng)
+        elif kind == "flag-hist":
+            yield _gen_flag_history(rng)
         else:
             yield _gen_roundtrip(rng)
 
@@ -1289,6 +1366,162 @@ def _run_fresh_ds(ctx, case):
         _BUNDLED.pop(name, None)         # our own cache may hold the object that was scribbled over
     ctx.case_done(case, True, canon=[name, mode, consumer])
 
+
+def _config(obj, depth=0):
+    """the CONFIGURATION of a problem object: noise_var, noise_cholesky, every dict-valued attribute (stored
+    kwargs), and the same for a wrapped problem / its dataset arrays.  Other attributes (caches) are ignored."""
+    out = {}
+    try:
+        items = sorted(vars(obj).items())
+    except TypeError:
+        return out
+    for key, v in items:
+        if isinstance(v, dict):
+            out[key] = ("dict", repr(sorted((str(a), repr(b)) for a, b in v.items())))
+        elif key in ("noise_var", "noise_cholesky", "in_data", "out_data", "in_dim", "out_dim"):
+            out[key] = ("arr",) + _hash(np.asarray(v)) if isinstance(v, np.ndarray) else ("val", repr(v))
+        elif key in ("problem", "dataset") and depth < 2:
+            out[key] = ("obj", repr(sorted(_config(v, depth + 1).items())))
+    return out
+
+
+def _flag_problem(case):
+    from vopy.maximization_problem import BraninCurrin, DecoupledEvaluationProblem, ProblemFromDataset
+
+    base = case["via"][4:] if case["via"].startswith("dec-") else case["via"]
+    nv = case["noise_var"]
+    if base == "dataset":
+        if case.get("bundled"):
+            ds = _bundled(case["bundled"])[0]
+        else:
+            ds = _synthetic_dataset(case["X"], case["Y"])
+        prob = ProblemFromDataset(ds, nv)
+    elif base == "linear":
+        prob = _linear_problem(case["A"], case["b"], nv)
+    else:
+        prob = BraninCurrin(nv)
+    inner = prob
+    if case["via"].startswith("dec-"):
+        prob = DecoupledEvaluationProblem(prob)
+    return prob, inner
+
+
+def _run_flag_history(ctx, case):
+    """HISTORY of the noisy flag on ONE object: every call is held to its own contract."""
+    via, single, m = case["via"], case["single"], case["m"]
+    dec = via.startswith("dec-")
+    base = via[4:] if dec else via
+    ctx.count("flaghist_via_" + via)
+    try:
+        prob, inner = _flag_problem(case)
+    except Exception as e:
+        _viol(ctx, "flaghist-crash:" + core.exc_key(e), f"constructor raised {type(e).__name__}: {e}", case)
+        return
+    label = type(prob).__name__ + (f"({type(inner).__name__})" if dec else "")
+    fr_nv = core.frac(case["noise_var"])
+    dyadic_sqrt = Fraction(math.isqrt(fr_nv.numerator)) ** 2 == fr_nv.numerator and \
+        Fraction(math.isqrt(fr_nv.denominator)) ** 2 == fr_nv.denominator
+    exact = base != "branin" and not case.get("bundled") and dyadic_sqrt
+    cfg0 = _config(prob)
+    seen_false = seen_true = cfg_reported = False
+    for t, call in enumerate(case["calls"]):
+        mode, ix = call["mode"], call["ix"]
+        want_noisy = not mode.startswith("false")
+        xs = np.array(call["xs"], dtype=float)
+        k = len(xs)
+        x = xs[0].copy() if single else xs.copy()
+        # reference values from a FRESH object with the flag given explicitly (one call: no history)
+        fresh, fresh_inner = _flag_problem(case)
+        f = np.asarray(fresh_inner.evaluate(xs.copy(), noisy=False), dtype=float)
+        M = np.asarray(fresh_inner.noise_cholesky, dtype=float).T   # rows are multiplied by Lᵀ (diagonal here)
+        Z = np.array(call["Z"], dtype=float)
+        args, kw = [x], {}
+        if dec:
+            if call["ix_pos"]:
+                args.append(ix)
+            else:
+                kw["evaluation_index"] = ix
+            if mode != "default":
+                kw["noisy"] = want_noisy
+        elif mode.endswith("_pos"):
+            args.append(want_noisy)
+        elif mode != "default":
+            kw["noisy"] = want_noisy
+        ctx.count("flaghist_mode_" + mode)
+        hx = _hash(x)
+        state = np.random.get_state()
+        try:
+            if call["real_rng"] and want_noisy:
+                np.random.seed(call["seed"])
+                got, calls_seen = prob.evaluate(*args, **kw), None
+            else:
+                with _PatchedNormal(Z) as pn:
+                    got = prob.evaluate(*args, **kw)
+                calls_seen = pn.calls
+        except Exception as e:
+            _viol(ctx, f"flaghist-crash:{label}:" + core.exc_key(e), f"call {t} ({mode}) raised {type(e).__name__}: {e}", case)
+            return
+        finally:
+            np.random.set_state(state)
+        if _hash(x) != hx:
+            _viol(ctx, f"evaluate-mutates-input:{type(prob).__name__}", f"{label}.evaluate modified the caller's array", case)
+        got = np.asarray(got, dtype=float)
+
+        def sel(full):
+            if not dec or ix is None:
+                return full
+            if isinstance(ix, int):
+                return full[:, ix]
+            return np.array([full[r, kk] for r, kk in enumerate(ix)])
+
+        if exact:
+            noisy_full = np.array(_fr_mat(ctx.ask("noisy", core.qmat(f.tolist()), core.qmat(call["Z"]), core.qmat(M.tolist()))))
+        else:
+            noisy_full = f + Z @ M
+        want_clean, want_noisy_val = sel(f), sel(noisy_full)
+        same = (lambda a, b: _rows_equal(a, b)) if exact else \
+            (lambda a, b: np.shape(a) == np.shape(b) and bool(np.allclose(a, b, rtol=1e-9, atol=1e-9)))
+        detail = {"call": t, "mode": mode, "ix": ix, "impl": got.tolist(), "noiseless": want_clean.tolist()}
+        if not want_noisy:
+            if not _rows_equal(got, want_clean) or calls_seen not in ([],):
+                sticky = seen_true and same(got, want_noisy_val)
+                _viol(ctx, "noise-flag-sticky" if sticky else "noiseless-not-exact",
+                      f"{label}: call {t} with noisy=False did not return exactly the noiseless value"
+                      + (" (noise of an earlier noisy call's flag was applied)" if sticky else "")
+                      + (f"; normal draws requested: {calls_seen}" if calls_seen else ""), case, detail=detail)
+                return
+            seen_false = True
+        else:
+            if got.shape != want_clean.shape:
+                _viol(ctx, "noisy-shape", f"{label}: call {t} returned shape {got.shape}", case, detail=detail)
+                return
+            resid = got - want_clean
+            if call["real_rng"]:
+                ok = bool(np.all(resid != 0)) and bool(np.all(np.isfinite(resid)))
+            else:
+                ok = same(got, want_noisy_val) and calls_seen == [(k, m)]
+            if not ok:
+                silent = _rows_equal(got, want_clean)
+                key = "noise-flag-sticky" if (silent and seen_false) else ("noise-not-applied" if silent else "noise-map")
+                _viol(ctx, key, f"{label}: call {t} ({'default' if mode == 'default' else 'noisy=True'}) must return "
+                      "f + z·M for the recorded draw (residual != 0)"
+                      + (" but returned the NOISELESS value after an earlier noisy=False call on the same object"
+                         if key == "noise-flag-sticky" else ""), case,
+                      detail=dict(detail, want=want_noisy_val.tolist(), draws=calls_seen))
+                if key == "noise-flag-sticky" and not cfg_reported and _config(prob) != cfg0:
+                    _viol(ctx, "evaluate-mutates-problem", f"{label}: evaluate changed the object's configuration "
+                          "(noise_var / noise_cholesky / stored kwargs)", case,
+                          detail={"before": repr(cfg0), "after": repr(_config(prob))})
+                return
+            seen_true = True
+        if not cfg_reported and _config(prob) != cfg0:
+            cfg_reported = True      # keep going: the later calls show what the changed configuration does
+            _viol(ctx, "evaluate-mutates-problem", f"{label}: call {t} ({mode}) changed the object's configuration "
+                  "(noise_var / noise_cholesky / stored kwargs / dataset)", case,
+                  detail={"before": repr(cfg0), "after": repr(_config(prob))})
+        ctx.count("flaghist_calls")
+    ctx.case_done(case, len(case["calls"]) >= 2, canon=case)
+
 def _run_moments(ctx, case):
     """STATISTICAL TEST (not proof): N repeated noisy evaluations, 6-sigma band, seed fixed by the case."""
     from vopy.maximization_problem import BraninCurrin, ProblemFromDataset
@@ -1351,7 +1584,8 @@ def _run_moments(ctx, case):
 
 _RUN = {"lookup": _run_lookup, "noise-util": _run_noise_util, "noise-prob": _run_noise_prob,
         "continuous": _run_continuous, "bundled": _run_bundled, "synth-ds": _run_synth_ds,
-        "roundtrip": _run_roundtrip, "moments": _run_moments, "history": _run_history, "fresh-ds": _run_fresh_ds}
+        "roundtrip": _run_roundtrip, "moments": _run_moments, "history": _run_history, "fresh-ds": _run_fresh_ds,
+        "flag-hist": _run_flag_history}
 
 
 def run_case(ctx, case):
